@@ -205,19 +205,22 @@ def body_E1(ctx):
         if k == 0:
             break
         g = live[k - 1]
-        op = ["next", "send", "throw", "close"][ctx.choose(4, "op")]
+        op = ["next", "send", "throw", "close", "send-exception-object"][ctx.choose(5, "op")]
         d = drivers[ctx.choose(len(drivers), "driver context")]
         info = g["info"]
         payload = ("sent", step)
         exc = Boom("thrown %d" % step)
-        if op == "send" and not g["started"]:
+        if op in ("send", "send-exception-object") and not g["started"]:
             op = "next"  # a just-created generator only accepts None
+        as_value = Boom("sent as a value %d" % step)
 
         def do(gen):
             if op == "next":
                 return next(gen)
             if op == "send":
                 return gen.send(payload)
+            if op == "send-exception-object":
+                return gen.send(as_value)  # an exception instance is a value like any other
             if op == "throw":
                 return gen.throw(exc)
             return gen.close()
@@ -359,11 +362,11 @@ OBLIGATIONS = [
         E1,
         body_E1,
         "X",
-        desc="driver schedules over 2 decorated generators x 4 body kinds x {next,send,throw,close} x 3 driver contexts: own context inside, driver context untouched, outcomes equal an undecorated twin's",
+        desc="driver schedules over 2 decorated generators x 4 body kinds x {next,send,send(exception object),throw,close} x 3 driver contexts: own context inside, driver context untouched, outcomes equal an undecorated twin's",
         functions=["eliot_friendly_generator_function", "Action.__enter__/__exit__", "start_action", "log_message", "current_action"],
         shards=_shards,
         twin=[{"gens": 2, "steps": 2, "contexts": 3, "twin_label": "switching"}],
         timeout={"quick": 100, "thorough": 1500},
-        bounds={"quick": "2 generators (4 body kinds each) x <= 2 driver steps, and 1 generator x <= 3 steps; each step: any live generator x 4 operations x 3 driver contexts", "thorough": "2 generators x <= 3 steps and 1 generator x <= 5 steps with 2 driver contexts; 2 generators x 2 steps with 3 contexts"},
+        bounds={"quick": "2 generators (4 body kinds each) x <= 2 driver steps, and 1 generator x <= 3 steps; each step: any live generator x 5 operations x 3 driver contexts", "thorough": "2 generators x <= 3 steps and 1 generator x <= 5 steps with 2 driver contexts; 2 generators x 2 steps with 3 contexts"},
     ),
 ]
